@@ -114,7 +114,8 @@ def stepC18 (st : DriverState) (fields : List String) : Option String :=
       let sco ← fb sco
       let depth ← depth.toNat?
       some (runLine (runSteps (convertToEquivalentSteps N P st.pre lut em equivalences ⟨u, d, w⟩
-        { convUnit := tg, name := eq, kwargs := pKw kw, selfCoeff := sco, depth := depth })) x u d)
+        { convUnit := tg, name := eq, kwargs := pKw kw, selfCoeff := sco, depth := depth,
+          reenters := C18.fixupReenters, powRefuses := powRefuses })) x u d)
     | _ => none
   | "c18.setitem" :: sc :: off :: dim :: co :: fac :: rest => do
     let u ← parseUnitV sc off dim co fac
@@ -161,7 +162,7 @@ def stepC18 (st : DriverState) (fields : List String) : Option String :=
                                 kernelShape := ksh }
         let o : OutInfo Float := { unit := ou, data := odata, floatDtype := fd,
                                    promotable := (npDtype N .f fd.size).toOption.isSome }
-        let r := inplaceUfunc (ctx st) o fuel c
+        let r := inplaceUfunc C18.fixupReenters (ctx st) o fuel c
         let u0 : UnitV Float := match ou with | some u => u.v | none => UnitV.dimensionless
         let d0 : Dtype := ⟨(match odata.kind with | .i => .i | .u => .u | .c => .c | .b => .b | _ => .f), odata.itemsize⟩
         some (runLine r 1 u0 d0)
@@ -190,7 +191,7 @@ def stepC18 (st : DriverState) (fields : List String) : Option String :=
     let (tg, rest) ← pTarget rest
     match rest with
     | [eq, kw] =>
-      let r := runSteps (toEquivalentSteps N P st.pre lut em equivalences ⟨u, d, true⟩ tg eq (pKw kw))
+      let r := runSteps (toEquivalentSteps N P st.pre lut em equivalences powRefuses ⟨u, d, true⟩ tg eq (pKw kw))
       some (shortLine r.effects.length r.result)
     | _ => none
   | "c18.copy.ufunc" :: f :: m :: nin :: rest => do
